@@ -618,7 +618,9 @@ def Mon.rest (m : Mon) (w : World) : List Vio :=
   (acc.flatMap fun (b, e) =>
     let hs := hangSigs w m e
     let bs := busHangSigs w m b
-    if stopRelated (hs ++ bs) then [] else
+    -- (an event of whose tree nothing was dropped by, or is stuck behind, a stopped run loop is held to the event-level
+    --  clauses even if bus b was stopped later on; only the per-bus clause is waived for a stopped bus)
+    if stopRelated hs then [] else
     -- every ordinary handler that was registered for a matching pattern when an activation of (b, e) began has a terminal
     -- result; an accepted event that was never begun is judged against the registry as it is now
     (let begunSel := (m.selAt.filter (·.1 == (b, e))).flatMap (·.2)
@@ -626,7 +628,7 @@ def Mon.rest (m : Mon) (w : World) : List Vio :=
      let ok := if m.begun.count (b, e) ≥ m.accepted.count (b, e) then
          begunSel.all fun k => match (w.ev e).getRes? b k with | some x => x.terminal | none => false
        else C01.noSkip w b e
-     if !ok then v "C01" "skipped" (hs ++ bs) s!"bus {b} event {e}" else []) ++
+     if !ok && !stopRelated bs then v "C01" "skipped" (hs ++ bs) s!"bus {b} event {e}" else []) ++
     (if treeDone w e && !(w.ev e).signal then v "C03" "doneNotSignalled" hs s!"event {e}" else []) ++
     (if m.everTimeout && !((w.ev e).status == .completed && (w.ev e).signal) then
        v "C10" "notCompletedAfterTimeout" hs s!"event {e}" else []) ++
